@@ -14,7 +14,7 @@ PROP = "C17"
 COQ = dict(imports=["Model.RevHeader", "Model.Incremental", "Spec.C17"], in_ty="c17_in", out_ty="c17_out", corr="corr_C17",
            decide="check_C17", inclass="inclass_C17", model="model_C17")
 THEOREMS = ["C17_header_roundtrip", "C17_docstring_partial", "C17_docstring_refuted", "C17_incremental", "C17_incremental_view",
-            "C17_incremental_refuted_id_is_label", "C17_decider_sound", "C17_main"]
+            "C17_incremental_refuted_id_is_label", "C17_accepted_is_scanned", "C17_subdir_not_scanned", "C17_decider_sound", "C17_main"]
 TRUSTED = [
     "Mako rendering of script.py.mako, file naming (_rev_path) and importlib loading are observed, not modelled: the model "
     "starts from the identifier lines / docstring body found in the written file and from the attributes of the loaded Script",
@@ -25,8 +25,8 @@ TRUSTED = [
     "children; the hash-order dependent choices of _add_branches are compared as label sets",
 ]
 ASSUME = [
-    "every call is one accepted by generate_revision / command.revision / command.merge (rejected calls are dropped from "
-    "the sequence and counted); the new revision id is not an existing branch label; the docstring body contains no "
+    "calls rejected for their version_path are part of the sequence (the model decides acceptance: the normalised path must "
+    "equal a configured location); any other rejection disagrees with the model and is reported; the new revision id is not an existing branch label; the docstring body contains no "
     "backslash and no three consecutive double quotes (inclass_C17)",
 ]
 RULE = ("seeded sequences of 1-6 generate_revision / command.revision / command.merge calls: heads {single head, explicit id, "
@@ -34,7 +34,9 @@ RULE = ("seeded sequences of 1-6 generate_revision / command.revision / command.
         "messages and ids from {ASCII, quotes, backslash-free unicode, newlines, non-printable}, file_template tokens "
         "{rev, slug, year, month, day, hour, minute, second, epoch}, truncate_slug_length {unset, 5, 40}, 1-3 version_locations "
         "(one with a space in its name); plus a family of 3-4 independent roots merged at once (command.merge, "
-        "command.revision and generate_revision with 3-4 heads) followed by a revision on the merge. non-trivial = at least two revisions were generated; "
+        "command.revision and generate_revision with 3-4 heads) followed by a revision on the merge; explicit version_path "
+        "{a configured location in five spellings, another location, a sub-directory of one, a sibling sharing its prefix, an "
+        "unrelated path} x recursive_version_locations on/off: rejected calls are steps too (no file may be left). non-trivial = at least two revisions were generated; "
         "distinct by the encoded input")
 EXHAUSTIVE = {"quick": False, "thorough": False}
 CASE_TIMEOUT = 120
@@ -99,9 +101,12 @@ def gen_seq(rnd, k, reg):
         y = rnd.random()
         if i > 0 and y < .3:
             c["deps"] = [rnd.choice(["id", "partial", "label"]) for _ in range(rnd.choice([1, 1, 2]))]
+        if rnd.random() < .35:
+            c["vpath"] = rnd.choice(["exact", "exact", "other_loc", "sub", "sibling", "unrelated"])
         calls.append(c)
     cfg = {"file_template": rnd.choice(FILE_TEMPLATES),
-           "truncate_slug_length": rnd.choice([None, 5, 40]), "locations": rnd.choice([1, 1, 2, 3])}
+           "truncate_slug_length": rnd.choice([None, 5, 40]), "locations": rnd.choice([1, 1, 2, 3]),
+           "explicit": rnd.random() < .6, "recursive": rnd.random() < .4}
     return {"calls": calls, "cfg": cfg, "seed": rnd.randrange(1 << 30)}
 
 
@@ -117,6 +122,18 @@ def gen_merge3(rnd, k):
     calls.append({"rid": "z0a0x", "msg": "after merge", "via": "generate", "head": "head_symbol", "fixed": True})
     return {"calls": calls, "cfg": {"file_template": FILE_TEMPLATES[k % len(FILE_TEMPLATES)], "truncate_slug_length": [None, 5][k % 2],
                                     "locations": 1 + k % 3}, "seed": rnd.randrange(1 << 30)}
+
+
+def gen_vpath(k):
+    """explicit version_path: each kind x recursive_version_locations x 1-3 locations x generate/revision"""
+    kinds = ["exact", "other_loc", "sub", "sibling", "unrelated"]
+    calls = [{"rid": "r0a0x", "msg": "root", "via": "generate", "head": "base", "fixed": True, "vpath": "exact"},
+             {"rid": "r1a1x", "msg": "probe", "via": ["generate", "revision"][(k // 5) % 2], "head": "pick_head", "fixed": True,
+              "vpath": kinds[k % 5]},
+             {"rid": "r2a2x", "msg": "after", "via": "generate", "head": "pick_head", "fixed": True},
+             {"rid": "r3a3x", "msg": "probe base", "via": "generate", "head": "base", "fixed": True, "vpath": kinds[(k + 2) % 5]}]
+    return {"calls": calls, "cfg": {"file_template": None, "truncate_slug_length": None, "locations": 1 + (k // 20) % 3,
+                                    "explicit": True, "recursive": (k // 10) % 2 == 1}, "seed": k}
 
 
 def finding_cases(reg):
@@ -147,6 +164,8 @@ def generate(tier, seed):
         yield gen_seq(rnd, k, reg)
     for k in range(24 if tier == "quick" else 300):
         yield gen_merge3(rnd, k)
+    for k in range(60):
+        yield gen_vpath(k)
 
 
 def search(tier, seed):
@@ -237,12 +256,29 @@ def _run_case(h):
         if c["truncate_slug_length"]:
             cfg.set_main_option("truncate_slug_length", str(c["truncate_slug_length"]))
         locs = [os.path.join(d, "scripts", "versions")]
-        if c["locations"] >= 2:
+        explicit = c["locations"] >= 2 or c.get("explicit", False)
+        if explicit:
             for extra in ["other_versions", "third versions dir"][:c["locations"] - 1]:
                 locs.append(os.path.join(d, extra))
                 os.makedirs(locs[-1])
             cfg.set_main_option("version_locations", os.pathsep.join(locs))
             cfg.set_main_option("version_path_separator", "os")
+        recursive = bool(c.get("recursive", False))
+        if recursive:
+            cfg.set_main_option("recursive_version_locations", "true")
+        pkey = Intern()
+
+        def comps(pth):
+            """a directory as the components of its normalised absolute path below the temp root"""
+            rel = os.path.relpath(os.path.normpath(os.path.abspath(pth)), d)
+            return [pkey(x) for x in rel.split(os.sep)]
+
+        def e_path(pth):
+            return cf.nlist(comps(pth))
+
+        def all_py():
+            return {os.path.join(root, fn) for root, _, files in os.walk(d) for fn in files if fn.endswith(".py")}
+        e_locs = lst(locs, e_path)
         sd = ScriptDirectory.from_config(cfg)
         ids, labels = [], []
         for call in h["calls"]:
@@ -316,8 +352,33 @@ def _run_case(h):
             vpath = None
             if c["locations"] >= 2 and head == "base":
                 vpath = rnd.choice(locs)
+            vk = call.get("vpath")
+            if vk and explicit and call["via"] != "merge" and not (call["via"] != "generate" and kind == "merge"):
+                loc = rnd.choice(locs)
+                if c["locations"] >= 2 and parents:
+                    hp = sd.get_revision(parents[0])
+                    loc = os.path.dirname(hp.path) if hp is not None else loc
+                if vk == "exact":
+                    vpath = rnd.choice([loc, loc + os.sep, os.path.join(loc, "."), os.path.join(loc, "..", os.path.basename(loc)),
+                                        os.path.relpath(loc, os.getcwd())])
+                elif vk == "other_loc":
+                    vpath = rnd.choice(locs)
+                elif vk == "sub":
+                    vpath = os.path.join(loc, "feature")
+                elif vk == "sibling":
+                    vpath = loc + "_old"
+                else:
+                    vpath = os.path.join(d, "elsewhere")
+            # the directory asked for: version_path, else what alembic derives (first head's directory / the only location)
+            if vpath is not None:
+                eff = vpath
+            elif len(locs) > 1:
+                hp = sd.get_revision(parents[0]) if parents else None
+                eff = os.path.dirname(hp.path) if hp is not None else locs[0]
+            else:
+                eff = locs[0]
             script, module_ok = None, True
-            before = {os.path.join(loc, fn) for loc in locs for fn in os.listdir(loc)}
+            before = all_py()
             try:
                 if call["via"] == "generate":
                     script = sd.generate_revision(rid, msg, version_path=vpath, **kw)
@@ -332,20 +393,25 @@ def _run_case(h):
                     # generate_revision does: load the written file and add_revision it
                     sd = script_dir_of(script, cfg, sd)
             except util.CommandError as e:
+                # a rejected call: it must leave no file behind; the model decides whether the directory was acceptable
                 rejected += 1
-                log.append("rejected:%s" % str(e)[:60])
+                log.append("rejected:%s" % str(e)[:40])
+                left = bool(all_py() - before)
+                frev = "(mkF %d %s %s %s)" % (key(rid), cf.nlist(key(x) for x in parents), cf.nlist(key(x) for x in deps_exp),
+                                               cf.nlist(key(x) for x in labs))
+                steps_in.append("(mkStep %s %s %s %s %s %s %s %s %s %s)" % (
+                    frev, S(rid), lst(parents, S), lst(labs, S), lst(deps_exp, S), cf.nlist(nonprintable([rid] + parents + labs + deps_exp)),
+                    S(""), e_locs, cf.boolean(recursive), e_path(eff)))
+                steps_out.append({"rejected": True, "left": left, "header": "", "loaded": False, "module_ok": False, "views": None,
+                                  "same": False, "dir": "[]"})
                 continue
             except SyntaxError:
                 module_ok = False
             # locate the written file: the one that was not there before the call
-            path = None
-            for loc in locs:
-                for fn in sorted(os.listdir(loc)):
-                    p = os.path.join(loc, fn)
-                    if fn.endswith(".py") and p not in before:
-                        path = p
-            if path is None:
-                raise RuntimeError("written file not found for %r" % rid)
+            new = sorted(all_py() - before)
+            if len(new) != 1:
+                raise RuntimeError("expected one new file for %r, found %r" % (rid, new))
+            path = new[0]
             txt = open(path, encoding="utf-8").read()
             i0 = txt.index("\nrevision: str = ") + 1
             header = "".join(txt[i0:].splitlines(keepends=True)[:4])
@@ -362,8 +428,9 @@ def _run_case(h):
             frev = "(mkF %d %s %s %s)" % (key(rid), cf.nlist(key(x) for x in parents), cf.nlist(key(x) for x in deps_exp),
                                            cf.nlist(key(x) for x in labs))
             strings = [rid] + parents + labs + deps_exp
-            steps_in.append("(mkStep %s %s %s %s %s %s %s)" % (frev, S(rid), lst(parents, S), lst(labs, S), lst(deps_exp, S),
-                                                                  cf.nlist(nonprintable(strings)), S(doc_body)))
+            steps_in.append("(mkStep %s %s %s %s %s %s %s %s %s %s)" % (
+                frev, S(rid), lst(parents, S), lst(labs, S), lst(deps_exp, S), cf.nlist(nonprintable(strings)), S(doc_body),
+                e_locs, cf.boolean(recursive), e_path(eff)))
             views = None
             if module_ok:
                 try:
@@ -374,7 +441,8 @@ def _run_case(h):
                     log.append("reload:%s" % type(e).__name__)
                     views = None
             steps_out.append({"path": path, "header": header, "loaded": loaded_ok, "module_ok": module_ok, "views": views,
-                              "same": views is not None and views[0] == views[1]})
+                              "same": views is not None and views[0] == views[1], "rejected": False, "left": False,
+                              "dir": e_path(os.path.dirname(path))})
             if not module_ok or views is None:
                 break
             ids.append(rid)
@@ -382,13 +450,15 @@ def _run_case(h):
     finally:
         shutil.rmtree(d, ignore_errors=True)
     cin = lst(steps_in)
-    cout = lst(steps_out, lambda o: "(mkSO %s %s %s %s)" % (
+    cout = lst(steps_out, lambda o: "(mkSO %s %s %s %s %s %s %s)" % (
         S(o["header"]), cf.boolean(o["loaded"]), cf.boolean(o["module_ok"]),
-        "None" if o["views"] is None else "(Some (%s, %s))" % (e_view(o["views"][0]), e_view(o["views"][1]))))
-    out = {"steps": [{"header": o["header"], "loaded": o["loaded"], "module_ok": o["module_ok"], "mem_eq_disk": o["same"]} for o in steps_out],
+        "None" if o["views"] is None else "(Some (%s, %s))" % (e_view(o["views"][0]), e_view(o["views"][1])),
+        cf.boolean(o["rejected"]), cf.boolean(o["left"]), o["dir"]))
+    out = {"steps": [{"header": o["header"], "loaded": o["loaded"], "module_ok": o["module_ok"], "mem_eq_disk": o["same"],
+                      "rejected": o["rejected"], "file_left": o["left"]} for o in steps_out],
            "rejected": rejected, "log": log}
-    shape = "n%d%s%s" % (len(steps_out), "" if all(o["module_ok"] for o in steps_out) else "-syntaxerror", "-rej" if rejected else "")
-    return dict(cin=cin, cout=cout, out=out, nontrivial=len(steps_out) >= 2, shape=shape)
+    shape = "n%d%s%s" % (len([o for o in steps_out if not o["rejected"]]), "" if all(o["module_ok"] for o in steps_out) else "-syntaxerror", "-rej" if rejected else "")
+    return dict(cin=cin, cout=cout, out=out, nontrivial=len([o for o in steps_out if not o["rejected"]]) >= 2, shape=shape)
 
 
 def script_dir_of(script, cfg, sd):
